@@ -17,7 +17,7 @@ class P(vlib.Prop):
             "both ends of years 0..9999 and beyond, zones, fractions) and seeded ones; shlex stage: real shlex.Split vs the model on hand-picked command lines (quotes, escapes, "
             "comments, unterminated quotes, invalid UTF-8), seeded strings over a quoting alphabet, plain strings and single-quoted word lists; "
             "options stage: configuration annotations x --annotations maps (same key on both sides, one side only, nil/empty maps, emitter-owned keys), the option given 0-3 times, "
-            "date options in every order with and without SOURCE_DATE_EPOCH, through the real build.New (offline) and the real emitters: every command-line annotation must be the emitted "
+            "date options in every order with and without SOURCE_DATE_EPOCH (given as text: signs, blanks, Unicode white space, other bases, int64 limits), through the real build.New (offline) and the real emitters: every command-line annotation must be the emitted "
             "label / manifest annotation / index annotation. "
             "A case is non-trivial unless marked; distinct = distinct inputs.")
     stages = (
@@ -47,7 +47,7 @@ class P(vlib.Prop):
                   "c12_rfc3339_roundtrip / _monotone (for every second count in years 0..9999 the created text denotes exactly that instant, has the 20-character shape, and text order = "
                   "time order), c12_rfc3339_out_of_range (outside: MarshalJSON refuses exactly those, witnesses for shape/order), c12_shlex_plain / _quote_roundtrip / _errors (token list = "
                   "fields for unquoted command lines; any word list survives single-quoting; unterminated quotes fail), c12_image_mapping (Validate's service-bundle rewrite, entrypoint/cmd "
-                  "are the model's token lists, created field + label + one history entry per layer denote the creation time, base history kept), c12_image_unserialisable_time, c12_annotations_precedence (command line over configuration file for every key, idempotent under re-application; the direction of the copy in "
+                  "are the model's token lists, created field + label + one history entry per layer denote the creation time, base history kept), c12_image_unserialisable_time, c12_source_date_epoch_created (SOURCE_DATE_EPOCH parsed as build.New does is the instant every created text denotes), c12_annotations_precedence (command line over configuration file for every key, idempotent under re-application; the direction of the copy in "
                   "build.WithAnnotations is read from options.go on every run). "
                   "The model is tied to the code by differential comparison on real BuildIndex / BuildImageFromLayers / GenerateIndex / archive/tar / shlex / time runs.")
     level_note = ("trusted: Coq kernel, goextract, Go harness/printer; modelled not verified: Go text of BuildIndex/BuildImageFromLayers/generateIndexWithMediaType/Validate, shlex's tokenizer, "
